@@ -39,7 +39,7 @@ Theorem C09_verdict : forall (H : N -> bytes -> bytes) h f,
    (forall i c, nth_error (h_chunks h) i = Some c -> chunk_good H h f (i =? 0)%nat c = true) /\
    (uflag h = true \/ data_good H h f = true)) /\
   (expected_ret H h f = 1%Z \/ expected_ret H h f = (-1)%Z).
-Proof. intros H h f. split; [exact (expected_ret_iff H h f)|exact (expected_ret_values H h f)]. Qed.
+Proof. exact expected_ret_char. Qed.
 Print Assumptions C09_verdict.
 
 (** T9.1/T9.2 for a detached header: only the dictionary entry is classified, the other
